@@ -355,6 +355,11 @@ func ruleFlagWrap(r *Run) {
 				c := constOf(info, call.Args[0])
 				_, known := fc[c]
 				r.Check("C4f", fmt.Sprintf("%s:flag-arg[%s]", fn.Name, r.P.exprStr(call.Args[0])), c != nil && known, call.Pos(), "feature-flag argument is one of the declared DISABLE_* constants")
+				if lit, ok := ast.Unparen(call.Args[1]).(*ast.FuncLit); ok {
+					r.checkFlagClosure(fn, lit, fc[c])
+				} else {
+					r.Check("C4c", fmt.Sprintf("%s:flag-closure[%s]", fn.Name, fc[c]), false, call.Pos(), "the function run under a feature flag is not a literal and cannot be inspected")
+				}
 				return true
 			default:
 				return true
@@ -394,9 +399,7 @@ func ruleFlagWrap(r *Run) {
 				break
 			}
 			r.Check("C4b", fmt.Sprintf("%s:emit[%s]", fn.Name, class), okWrap, call.Pos(), "message of class %s is emitted only inside IfNotSet(%s, …)", class, flagNameFor(classFlag[class]))
-			if okWrap {
-				r.checkFlagClosure(fn, wrapLit, class)
-			}
+			_ = wrapLit
 			return true
 		})
 	}
